@@ -1439,12 +1439,24 @@ func (fv *FV) expandEnv(env *Env, sf *SpecFunc, a []Term) *Env {
 
 // splitConj translates a boolean contract expression into a list of conjuncts (so that each becomes its own
 // obligation): top-level &&, predicate calls, the right side of ==>, and bodies of forall are split.
+var cumulativeConj = os.Getenv("GOVC_CUMUL") != ""
+
 func (fv *FV) splitConj(env *Env, e SExpr) []string {
 	switch x := e.(type) {
 	case *SBin:
 		switch x.Op {
 		case "&&":
-			return append(fv.splitConj(env, x.L), fv.splitConj(env, x.R)...)
+			l := fv.splitConj(env, x.L)
+			r := fv.splitConj(env, x.R)
+			if cumulativeConj {
+				// A && B is proved as A, then A ==> B: the later conjunct may use the earlier ones (and the terms
+				// they mention) at the same binding of the enclosing quantifiers
+				a := fv.specBool(env, x.L)
+				for i := range r {
+					r[i] = implies(a, r[i])
+				}
+			}
+			return append(l, r...)
 		case "==>":
 			a := fv.specBool(env, x.L)
 			var out []string
